@@ -17,7 +17,7 @@ import ast
 
 from .. import effects
 from ..objects import ObjectDomain
-from ..absint import FALSE, NONE, TOP, TRUE, Undecided, exc, val
+from ..absint import FALSE, NONE, TOP, TRUE, Undecided, exc, unbox_deep, val
 from ..astutil import FUNC_TYPES, attr_chain, dotted
 
 DFR_METHODS = {"addCallback", "addErrback", "addBoth", "addCallbacks", "callback", "errback"}
@@ -103,6 +103,7 @@ class DeferredDomain(ObjectDomain):
         if isinstance(fn, tuple) and fn[:1] == ("userfn",):
             # a user function of a given kind: returns / raises / returns a Deferred that has fired, failed or is pending
             log = st.get("ev.calls", ())
+            pos, kw = [unbox_deep(v, st) for v in pos], [(k, unbox_deep(v, st)) for k, v in kw]
             s = st.set("ev.calls", log + (("user-function", tuple(pos), tuple(kw), fn[1]),))
             kind = fn[1]
             if kind == "value":
@@ -220,6 +221,10 @@ class DeferredDomain(ObjectDomain):
                 s = s.set(key, ("ok", arg) if name == "callback" and not is_failure(arg) else ("fail", arg))
                 out.extend(val(NONE, s2) for s2 in self.fire(interp, dv, s, fr))
                 continue
+            first = {"addCallback": "callback", "addErrback": "errback", "addBoth": "callback", "addCallbacks": "callback"}[name]
+            if not pos and any(k_ == first for k_, _ in kw):
+                pos = [dict(kw)[first]]
+                kw = [(k_, v_) for k_, v_ in kw if k_ != first]
             if not pos:
                 out.append(exc(("exc", "TypeError"), s))
                 continue
@@ -231,9 +236,24 @@ class DeferredDomain(ObjectDomain):
             elif name == "addBoth":
                 pair = ((pos[0], tuple(pos[1:]), tuple(kw)), (pos[0], tuple(pos[1:]), tuple(kw)))
             else:   # addCallbacks(callback, errback=None, callbackArgs=None, callbackKeywords=None, errbackArgs=None, errbackKeywords=None)
-                kwd = dict(kw)
-                eb = pos[1] if len(pos) > 1 else kwd.get("errback")
-                pair = ((pos[0], (), ()), (eb, (), ()) if eb is not None and eb != NONE else nothing)
+                names = ("callback", "errback", "callbackArgs", "callbackKeywords", "errbackArgs", "errbackKeywords")
+                bound = dict(zip(names, pos))
+                bound.update(kw)
+                if len(pos) > len(names) or set(bound) - set(names):
+                    out.append(exc(("exc", "TypeError"), s))
+                    continue
+
+                def extra(a_, k_):
+                    a_, k_ = bound.get(a_), bound.get(k_)
+                    if a_ in (None, NONE):
+                        a_ = ("tuple",)
+                    if k_ in (None, NONE):
+                        k_ = ("kwdict", ())
+                    if not (isinstance(a_, tuple) and a_[:1] == ("tuple",) and isinstance(k_, tuple) and k_[:1] == ("kwdict",)):
+                        raise Undecided("addCallbacks with extra arguments that are not exact")
+                    return tuple(a_[1:]), tuple(k_[1])
+                eb = bound.get("errback")
+                pair = ((pos[0],) + extra("callbackArgs", "callbackKeywords"), ((eb,) + extra("errbackArgs", "errbackKeywords")) if eb is not None and eb != NONE else nothing)
             s = s.set(key + ".cbs", s.get(key + ".cbs", ()) + (pair,))
             out.extend(val(dv, s2) for s2 in self.fire(interp, dv, s, fr))
         return out
